@@ -125,7 +125,7 @@ NOTES = ("All claimed checks are exploration-level deterministic simulations (se
          "repaired in /repo (fix: commits 40a7ea6, 5bbf938, ab3e6dd, f3aaac2, 08553b7, 6cea28f; recorded as `fixed` in "
          "known_findings.json, witnesses pinned under corpus/); one is recorded as a finding (D6, property C07: the check prints "
          "KNOWN-FINDING for its pinned witness and exits 0). Self-tests: check selftest-determinism | selftest-simfs | "
-         "selftest-grammar | selftest-sensitivity (mutants/catalogue.json) | selftest-seeded (156 independent seeded changes "
+         "selftest-grammar | selftest-sensitivity (mutants/catalogue.json) | selftest-seeded (165 independent seeded changes "
          "under seeded/).")
 
 
